@@ -19,7 +19,7 @@ HOSTS = [
 ]
 PORTS = [None, 1, 80, 443, 8080, 65535]
 USERINFO = ['', 'u:p@', 'u@', 'u:@']
-PATHS = ['', '/', '/a?b=c', '/a:b@c', '//x', '/a%20b/;p?q#f'.split('#')[0]]
+PATHS = ['', '/', '/a?b=c', '/a:b@c', '//x', '/a%20b/;p?q#f'.split('#')[0], '?q=1']     # '?q=1': empty path, query only
 OK = b'HTTP/1.1 200 OK\r\nContent-Length: 2\r\n\r\nok'
 
 
@@ -34,6 +34,13 @@ def targets(tier):
         auth = ui + h + (':%d' % port if port is not None else '')
         t = 'http://' + auth + path
         out.append(('abs', t, h, kind, ip, port, path, ui))
+    # the scheme is case-insensitive
+    for sch in ('HTTP://', 'Http://'):
+        for (h, kind, ip) in (HOSTS[0], HOSTS[5], HOSTS[7]):
+            for port in (None, 8080):
+                for path in ('/', '/a?b=c', ''):
+                    t = sch + h + (':%d' % port if port is not None else '') + path
+                    out.append(('abs', t, h, kind, ip, port, path, ''))
     for (h, kind, ip), port in itertools.product(HOSTS, PORTS):
         t = h + (':%d' % port if port is not None else '')
         if port is None:
@@ -63,6 +70,9 @@ DAMAGED = [
     ('connect-v6-unbracketed', 'CONNECT', '::1:443', 'either'),
     ('connect-path', 'CONNECT', 'h:443/x', 'either'),
     ('space-in-host', 'GET', 'http://h h/', 'reject'),
+    ('port-underscore', 'GET', 'http://h:8_0/', 'reject'), ('port-plus', 'GET', 'http://h:+80/', 'reject'),
+    ('port-space', 'GET', 'http://h: 80/', 'reject'), ('connect-port-plus', 'CONNECT', 'h:+443', 'reject'),
+    ('connect-port-underscore', 'CONNECT', 'h:4_43', 'reject'),
     # host bytes that are not text: dropping or replacing them would name ANOTHER, valid host
     ('nonutf8-host', 'GET', b'http://exam\xffple.test/x', 'reject'),
     ('nonutf8-host-port', 'GET', b'http://exam\xffple.test:8080/x', 'reject'),
@@ -117,7 +127,7 @@ def part_a(tier, rep):
                           {'target': t, 'got': p.port, 'want': want_port})
         if form == 'abs':
             got_path = (p.path or b'').decode('utf-8', 'replace')
-            if got_path != path_ref:
+            if got_path != path_ref and not (path_ref.startswith('?') and got_path == '/' + path_ref):
                 rep.violation(dict(feats, symptom='derived_path_disagrees_with_reference'),
                               {'target': t, 'got': got_path, 'want': path_ref})
     # origin-form targets
@@ -217,6 +227,8 @@ def check(w):
         for oc in w.origin_conns:
             reqs += getattr(oc, 'requests', [])
         want_path = f['_path'] or '/'
+        if want_path.startswith('?'):
+            want_path = '/' + want_path
         if not reqs or reqs[0]['target'].decode('utf-8', 'replace') != want_path:
             bad('origin_request_line_path_wrong', got=reqs[0]['target'] if reqs else None, want=want_path)
     return out
